@@ -38,12 +38,12 @@ REQUIRED_PROBES = {"quick": ["R_is_infinity", "model_accepts_tampered",
 
 KINDS = ["intact", "intact", "bytes", "bytes", "bytes", "arith", "arith",
          "other_msg", "other_key", "other_hash", "replay", "byz_inf",
-         "byz_pair", "byz_pair"]
+         "byz_pair", "byz_pair", "inplace"]
 
 
 def budget(tier):
     if tier == "quick":
-        return dict(runs=10000, wall=75, chunk=150)
+        return dict(runs=8000, wall=75, chunk=150)
     return dict(runs=400000, wall=840, chunk=600)
 
 
@@ -67,7 +67,8 @@ def generate(run_seed, tier):
                   k=libx.key_scalar(r, n),
                   allow_truncate=r.random() < 0.8,
                   use_digest=r.random() < 0.5,
-                  precompute=r.choice(["no", "no", "no", "eager", "lazy"]))
+                  precompute=r.choice(["no", "no", "no", "eager", "lazy"]),
+                  burst=r.random() < 0.02)
         if it["use_digest"]:
             ln = max(1, r.choice([1, 2, mc.nlen - 1, mc.nlen, mc.nlen + 1,
                                   2 * mc.nlen, r.randrange(1, 40)]))
@@ -156,6 +157,12 @@ def execute(prog):
             sk.verifying_key.to_string(encs_[d % len(encs_)]), curve, dflt)
         vk2_rx = lk.VerifyingKey.from_string(
             sk2.verifying_key.to_string(encs_[d2 % len(encs_)]), curve, dflt)
+        if (d + d2) % 5 == 0:
+            # ... or handed over as a plain affine point object
+            from ecdsa import ellipticcurve as le_
+            vk_rx = lk.VerifyingKey.from_public_point(
+                le_.Point(curve.curve, Q[0], Q[1]), curve, dflt)
+        msg_buf = bytearray(256)    # the verifier re-uses one message buffer
         for it in prog["items"]:
             out["ops"] += 1
             kind = it["kind"]
@@ -176,6 +183,7 @@ def execute(prog):
                 e_sign = ec.digest_to_int(digest, n) if allow else \
                     int.from_bytes(digest, "big")
             verifier_Q = Q
+            inplace_view = None
             received = it["fseed"] % 2 == 0
             vkey = vk_rx if received else sk.verifying_key
             v_digest = digest
@@ -266,6 +274,29 @@ def execute(prog):
                     data = nd
                     core.bump(out["faults"], "arith_" + a)
                     out["nontrivial"] = True
+                elif kind == "inplace" and v_msg is not None \
+                        and 0 < len(v_msg) <= len(msg_buf):
+                    # the message lives in a buffer the verifier re-uses: it
+                    # is verified, then changed in place (same length) and
+                    # verified again with the same signature
+                    msg_buf[:len(v_msg)] = v_msg
+                    view = memoryview(msg_buf)[:len(v_msg)]
+                    try:
+                        first = vkey.verify(data if fmt != "strings"
+                                            else list(data), view,
+                                            hashfunc=v_hf, sigdecode=dec[fmt])
+                    except lk.BadSignatureError:
+                        first = "reject"
+                    if first is not True:
+                        fail("rejects-valid", "inplace-first",
+                             "intact signature over a message held in a "
+                             "bytearray view was not accepted: %r" % (first,))
+                    msg_buf[0] ^= 0xFF
+                    v_msg = bytes(msg_buf[:len(v_msg)])
+                    v_digest = hf(v_msg).digest()
+                    inplace_view = view
+                    core.bump(out["faults"], "message_changed_in_place")
+                    out["nontrivial"] = True
                 elif kind == "other_msg":
                     if v_msg is not None:
                         v_msg = v_msg + b"\x01"
@@ -324,7 +355,24 @@ def execute(prog):
                 # the verifier's table path (both points precomputed)
                 vkey.precompute(lazy=(it["precompute"] == "lazy"))
             try:
-                if v_msg is not None and v_hf is dflt and it["fseed"] % 3 == 0:
+                if it.get("burst"):
+                    # the same delivery many times over on one key object
+                    for _ in range(150):
+                        try:
+                            if v_msg is not None:
+                                vkey.verify(arg, v_msg, hashfunc=v_hf,
+                                            sigdecode=dec[fmt])
+                            else:
+                                vkey.verify_digest(arg, v_digest,
+                                                   sigdecode=dec[fmt],
+                                                   allow_truncate=allow)
+                        except (lk.BadSignatureError, lk.BadDigestError):
+                            pass
+                if inplace_view is not None:
+                    res = vkey.verify(arg, inplace_view, hashfunc=v_hf,
+                                      sigdecode=dec[fmt])
+                elif v_msg is not None and v_hf is dflt \
+                        and it["fseed"] % 3 == 0:
                     res = vkey.verify(arg, v_msg, sigdecode=dec[fmt])
                 elif v_msg is not None:
                     res = vkey.verify(arg, v_msg, hashfunc=v_hf,
